@@ -13,7 +13,7 @@ macro "inv_ev_B" : tactic => `(tactic| (
   all_goals (try simp only [beq_iff_eq, Bool.or_eq_true] at *)
   all_goals (first | exact h | (
     obtain ⟨h1⟩ := h
-    constructor <;> (try simp only [upd'_apply, upd_apply, setFlavTid_phase, setFlavTid_guard, setFlavTid_pay, setFlavTid_fl, setFlavTid_starts, setFlavTid_tid, setFlavTid_latch, setFlavTid_rtask, setFlavTid_gather, setFlavTid_stopReq, setFlavTid_flushed, setFlavTid_execs, setFlavTid_failedQuiet, setFlavTid_pids]) <;> grind [step.upd', upd, St.quiet, St.closing, Out.failing, Out.loopKiller, St.setFlavTid, St.tidOK, St.coBusy, Flav.isCo, Phase.restartable, Latch.isFailed]))))
+    constructor <;> (try simp only [upd'_apply, upd_apply, setFlavTid_phase, setFlavTid_guard, setFlavTid_pay, setFlavTid_fl, setFlavTid_starts, setFlavTid_tid, setFlavTid_latch, setFlavTid_rtask, setFlavTid_gather, setFlavTid_stopReq, setFlavTid_flushed, setFlavTid_execs, setFlavTid_failedQuiet, setFlavTid_holder, setFlavTid_pids]) <;> grind [step.upd', upd, St.quiet, St.closing, Out.failing, Out.loopKiller, St.setFlavTid, St.tidOK, St.coBusy, Flav.isCo, Phase.restartable, Latch.isFailed]))))
 
 theorem InvB_acceptBegin (s s' : St) (r : Nat) (h : InvB s) (hs : step s (.acceptBegin r) = some s') : InvB s' := by
   inv_ev_B
@@ -78,6 +78,12 @@ theorem InvB_gatherDone (s s' : St)  (h : InvB s) (hs : step s .gatherDone = som
 theorem InvB_discard (s s' : St) (p : Nat) (h : InvB s) (hs : step s (.discard p) = some s') : InvB s' := by
   inv_ev_B
 
+theorem InvB_hold (s s' : St) (p h' : Nat) (h : InvB s) (hs : step s (.hold p h') = some s') : InvB s' := by
+  inv_ev_B
+
+theorem InvB_dropUnit (s s' : St) (p : Nat) (h : InvB s) (hs : step s (.dropUnit p) = some s') : InvB s' := by
+  inv_ev_B
+
 theorem InvB_step (s s' : St) (e : Ev) (h : InvB s) (hs : step s e = some s') : InvB s' := by
   cases e with
   | acceptBegin r => exact InvB_acceptBegin s s' r h hs
@@ -101,5 +107,7 @@ theorem InvB_step (s s' : St) (e : Ev) (h : InvB s) (hs : step s e = some s') : 
   | gatherRaise f => exact InvB_gatherRaise s s' f h hs
   | gatherDone  => exact InvB_gatherDone s s'  h hs
   | discard p => exact InvB_discard s s' p h hs
+  | hold p h' => exact InvB_hold s s' p h' h hs
+  | dropUnit p => exact InvB_dropUnit s s' p h hs
 
 end Cobald.Runtime
